@@ -9,8 +9,10 @@ C09 — Fresh matching responses are served from the store.
    as heuristically cacheable, on both backends, and across closing and reopening a persistent
    backend."
 
-PARTIAL (stated up front): proved for a request without Cache-Control; `fresh_match_is_served` for an
-explicit max-age, `fresh_is_served` for every kind of lifetime (max-age, Expires, heuristic) of a stored
+PARTIAL (stated up front): `fresh_match_is_served` (request without Cache-Control, explicit max-age),
+`fresh_is_served` (request without Cache-Control) and `fresh_is_served_whatever_else_the_request_says`
+(any request directives except no-cache, max-age and min-fresh — which are the ones that demand
+validation or shorten the lifetime) for every kind of lifetime (max-age, Expires, heuristic) of a stored
 response with a usable Date and a status the cache documents as heuristically cacheable, fresh by the RFC
 definitions (`Spec.isFresh`); the store's answers are hypotheses (the index lookup under the request's key
 returns a matching reference and the entry read succeeds) — that they do so for every equivalent
@@ -88,6 +90,23 @@ theorem fresh_is_served (cfg : Cfg) (t0 : Int) (req : Req) (hu : isRequestMethod
   | cons r0 rs =>
     simp only [hvm]
     exact Run.getEntry (some e0) hrun
+
+/-- requests that carry directives: as long as the request neither demands validation (no-cache) nor
+    shortens the lifetime (max-age, min-fresh) — whatever else it carries: max-stale, only-if-cached,
+    no-store, no-transform, unknown extensions, in any spelling (C12) — a stored response that is fresh
+    by the RFC definitions is served from the store and the origin is not contacted -/
+theorem fresh_is_served_whatever_else_the_request_says (cfg : Cfg) (t0 : Int) (req : Req) (e : Entry) (key : Str)
+    (refs : List Ref) (i : Nat)
+    (hnc : (parseCC req.header).noCache = false) (hma : (parseCC req.header).maxAge = none)
+    (hmf : (parseCC req.header).minFresh = none)
+    (hT : TimesOK e) (hs : e.resp.status ≠ 304) (d : Int)
+    (hd : Spec.httpTime cfg.glue.parseTime e.resp.header sDate = some d)
+    (hdoc : Spec.heuristicallyCacheable.contains e.resp.status = true → isHeuristicStatus e.resp.status = true)
+    (hncu : (parseCC e.resp.header).noCacheUnqualified = false)
+    (hfresh : Spec.isFresh modelReader cfg.glue.parseTime (Spec.storedOfEntry e) t0 = true)
+    (tr : List Step) (r : Result) (h : Run (handleCacheHit cfg t0 req e key refs i) tr r) :
+    tr = [] ∧ ∃ f, r = .resp (serveFromCache f t0 e (parseCC e.resp.header)) :=
+  fresh_hits_any_request cfg t0 req e key refs i hnc hma hmf hT hs d hd hdoc hncu hfresh tr r h
 
 /-- the statuses the cache documents as heuristically cacheable are heuristically cacheable by RFC 9110
     too (so `hdoc` above only excludes 204 and 300, which the code does not list) -/
